@@ -410,7 +410,13 @@ impl World {
         if self.alarms.len() < 64 {
             let step = self.step_no;
             self.tr(|| format!("!! ALARM {} / {} :: {}", clause, culprit, detail));
-            self.alarms.push(Alarm { clause: clause.into(), culprit: culprit.into(), detail, step });
+            self.alarms.push(Alarm { clause: clause.into(), culprit: culprit.into(), detail: detail.clone(), step });
+            // C08, second half: an operation issued from inside a callback has the effect it would have outside a
+            // dispatch. The deferred self-directed disable/update is the one mechanism that exists only inside
+            // callbacks; when its accounting goes wrong the effect differs from the same call made outside.
+            if clause.starts_with("C09.") && self.cov_inops != 0 {
+                self.alarms.push(Alarm { clause: "C08.effect_as_outside".into(), culprit: format!("{}-{}", &clause[4..], culprit), detail, step });
+            }
         }
     }
     /// S was the target of an operation or of its own post action during this dispatch
